@@ -7,9 +7,12 @@ if ! git diff --quiet; then echo "/repo has uncommitted changes; refusing"; exit
 if ! git apply --check "$P" 2>/dev/null; then echo "patch does not apply: $P"; exit 3; fi
 git apply "$P"
 cd /verif
+# the evidence file of the unchanged tree must survive a run against a seeded change
+cp -f /verif/evidence/$ID.json /verif/target/evidence-$ID.keep 2>/dev/null
 timeout 3600 ./check "$ID" --tier "$TIER" > /tmp/mutcheck-$$.log 2>&1
 rc=$?
 git -C /repo checkout -- .
+[ -f /verif/target/evidence-$ID.keep ] && mv -f /verif/target/evidence-$ID.keep /verif/evidence/$ID.json
 grep -E "^(VIOLATION|KNOWN-FINDING|OK|INCONCLUSIVE|  signature)" /tmp/mutcheck-$$.log | cut -c1-260 | head -12
 echo "exit=$rc"
 rm -f /tmp/mutcheck-$$.log
